@@ -88,6 +88,11 @@ def I9a_but(S, mid):
     return MB(S).forall(lambda m: Or(m.id == mid, MS(S).exists(lambda s: s.mailbox_id == m.id)))
 
 
+def not_from_future(S, when):
+    """A15: no side row carries an arrival time later than the current event's clock read"""
+    return MS(S).forall(lambda r: r.added <= when)
+
+
 def I10(S):
     """key strings are non-empty where the code relies on truthiness: none needed;
     kept as the type discipline enforced at every INSERT/UPDATE (NullIntoKeyColumn)."""
@@ -126,6 +131,7 @@ def add_preserves(con, names=DB_INV, raises=(), tags=("C10", "C17", "C01", "C13"
             yield "preserves." + n, NAMED[n](c.post), list(tags)
     con._ensures.append(ens)
     con.preserved = list(names)
+    con.commit_invariants = list(DB_INV)      # C10: every commit point of this function leaves a Recoverable state
     for i, (exc, name, fn, fields, rtags, iff) in enumerate(con._raises):
         if exc in raises:
             def fn2(c, fn=fn):
